@@ -19,8 +19,10 @@ from symx.core import Violation, chk
 from symx.vloop import CycleBudget, Deadlock, VLoop
 
 
-def scn(sym, cov, parties, buf, cancel=None, native=False, eager=False, T=1, J=2, keep_rx=False, cancel_by=None, close=None):
+def scn(sym, cov, parties, buf, cancel=None, native=False, eager=False, T=1, J=2, keep_rx=False, cancel_by=None, close=None, behind_shield=False):
     """parties: list of program strings; buf: int | 'inf' | 'sym' (symbolic 0..2)
+    behind_shield: the cancel hits a scope AROUND a shielded scope around the party's own scope (shielded clean-up code using a
+        stream): the shield holds, the party must be served exactly as if nothing had been cancelled
     keep_rx: main keeps one receive clone open until every party finished, then drains the buffer"""
     import anyio
     from anyio import (BrokenResourceError, CancelScope, ClosedResourceError, EndOfStream, WouldBlock,
@@ -324,8 +326,12 @@ def scn(sym, cov, parties, buf, cancel=None, native=False, eager=False, T=1, J=2
                 if t is not None and not t.done():
                     state["native_fired"] = True
                     t.cancel()
+            elif behind_shield:
+                outer_scopes[cancel].cancel()
             else:
                 scopes[cancel].cancel()
+
+        outer_scopes = [CancelScope() for _ in range(n)]
 
         if cancel is not None and cancel_by is None:
             loop.env_at(ct, cj, fire_cancel)
@@ -349,7 +355,14 @@ def scn(sym, cov, parties, buf, cancel=None, native=False, eager=False, T=1, J=2
 
         async def party_wrap(i, prog, scope):
             try:
-                await party(i, prog, scope)
+                if behind_shield and i == cancel:
+                    with outer_scopes[i]:
+                        with CancelScope(shield=True):
+                            await party(i, prog, scope)
+                    if ended.get(i) == "cancelled":
+                        bad("party-behind-a-shield-was-cancelled", i)
+                else:
+                    await party(i, prog, scope)
             finally:
                 if prog[0] not in "SsX":
                     state["rx_left"] -= 1
